@@ -24,7 +24,8 @@ PRECS = [2, 4, 8]
 
 
 def gen_case(rng, idx, first=None):
-    nodes = G.gen_spec(rng, first=first, dim=1 if rng.random() < 0.2 else 2, padmodes=True)     # 1 in 5: Conv1d network
+    ru = rng.random() < 0.15        # one conv / linear module invoked twice (same or other resolution)
+    nodes = G.gen_spec(rng, first='reuse2' if (ru and rng.random() < 0.7) else first, dim=1 if rng.random() < 0.2 else 2, padmodes=True, reuse=ru)     # 1 in 5: Conv1d network
     if rng.random() < 0.6:        # biased depthwise / residual pairs (shared weight quantizer) must occur often
         for nd in nodes:
             if nd['k'] in ('conv', 'dw'):
@@ -38,6 +39,9 @@ def gen_case(rng, idx, first=None):
             # when summary() / export() are called: after an eval forward (default); right after TRAINING-mode forwards with
             # Gumbel sampling (the sampled coefficients are noisy); after the coefficients were changed with no forward since
             'seq': rng.choice(['eval', 'eval', 'gumbel-train', 'alpha-update']),
+            # 1 in 3: the model under test is a deepcopy / pickle round trip of the MPS model taken right after construction,
+            # in training mode, or after a coefficient change without forward; its coefficients are changed afterwards
+            'copy': ({'at': rng.choice(['construct', 'train', 'after-alpha']), 'how': rng.choice(['deepcopy', 'deepcopy', 'pickle'])} if rng.random() < 0.34 else None),
             # successive passes through the SAME exported model after the first one: same batch again / a new batch
             # (other batch size) / eval()->train()->eval() toggle of both models
             'passes': rng.choice([['same', 'new'], ['new', 'same'], ['same', 'toggle', 'same', 'new'], ['new', 'toggle', 'new'], ['same', 'same', 'new']])}
@@ -73,7 +77,36 @@ def run_case(c):
                 temperature=c['T'], gumbel_softmax=c['gumbel'], hard_softmax=c['hard'],
                 disable_shared_quantizers=c['dsq'])
         rng = random.Random(c['aseed'])
-        G.set_alphas(rng, p)
+        cp = c.get('copy')
+        orig = orig_state = None
+        if cp:
+            # snapshot of the MPS model (copy.deepcopy / pickle round trip) taken when its sampled coefficients are NOT
+            # the one-hot of the coefficients the copy is evaluated with; everything below runs on the COPY
+            import copy as _copy, pickle as _pickle
+            stage = 'copy'
+            x0 = torch.rand((2,) + ishape, generator=torch.Generator().manual_seed(c['seed'] ^ 0x77)) * 1.3 - 0.1
+            if cp['at'] == 'train':
+                G.set_alphas(rng, p)
+                p.train()
+                with torch.no_grad():
+                    p(x0)
+            elif cp['at'] == 'after-alpha':
+                p.eval()
+                with torch.no_grad():
+                    p(x0)
+                G.set_alphas(rng, p)
+            orig = p
+            if cp['how'] == 'pickle':
+                try:
+                    p = _pickle.loads(_pickle.dumps(orig))
+                except Exception as ex_:        # not picklable (fx graph module / lambdas): observation, fall back
+                    obs['pickle'] = 'EXC:' + type(ex_).__name__
+                    p = _copy.deepcopy(orig)
+            else:
+                p = _copy.deepcopy(orig)
+            orig_state = {k: v.clone() for k, v in orig.state_dict().items()}
+            stage = 'convert'
+        G.set_alphas(rng, p)            # (the copy's coefficients change after the copy was taken)
         L = G.mps_layers(nodes, p)
         seed = p.seed
         name2node = {str(n.target): n for n in seed.graph.nodes if n.op == 'call_module'}
@@ -143,6 +176,10 @@ def run_case(c):
             later.append({'pass': k_ + 2, 'input': what, 'equal': bool(torch.equal(yk, yek)), 'maxdiff': float((yk - yek).abs().max()),
                           'same_as_first': bool(torch.equal(yk, y)) if what == 'same' else None})
         obs['later'] = later
+        if orig is not None:
+            st2 = orig.state_dict()
+            obs['orig_changed'] = sorted(k for k, v in orig_state.items() if not torch.equal(v, st2[k]))[:6]
+            obs['copy_shares_params'] = any(a is b for a, b in zip(orig.parameters(), p.parameters()))
         obs['equal'] = bool(torch.equal(y, ye))
         obs['finite'] = bool(torch.isfinite(y).all())
         obs['maxdiff'] = float((y - ye).abs().max()) if y.shape == ye.shape else -1.0
@@ -203,6 +240,9 @@ def run_case(c):
     return obs
 
 
+REUSE_KEY = 'eval-differs-from-export:first-forward-after-coefficient-change:layer-invoked-twice'
+
+
 def oracle(c, o):
     """the sentences of the property on the implementation's observations -> list of (key, what)"""
     out = []
@@ -221,9 +261,20 @@ def oracle(c, o):
         if lp['same_as_first'] is False:
             out.append(('mps-eval-not-repeatable', 'MPS.eval()(x) on the same batch differs between pass 1 and pass %d' % lp['pass']))
             break
+    if o.get('orig_changed') or o.get('copy_shares_params'):
+        out.append(('copy-of-mps-model-not-independent', 'working with a %s of the MPS model changed the original: %r (shared parameters: %r)'
+                    % (c['copy']['how'], o.get('orig_changed'), o.get('copy_shares_params'))))
     if not o['stable']:
         out.append(('export-changes-the-mps-model', 'MPS.eval()(x) differs before / after export()'))
     nodes = c['nodes']
+    if G.has_reuse(nodes) and (not o['equal'] or not o['stable'] or any(lp['same_as_first'] is False for lp in o.get('later', []))) \
+            and o.get('later') and all(lp['equal'] for lp in o['later']):
+        # one call site: a module invoked twice has ONE input quantizer (registered for its last call site; here its own output
+        # quantizer), whose sampled coefficients are refreshed only at the end of the module's forward: the first forward after a
+        # coefficient change quantizes the bias with the stale input scale; from the second forward on eval == export again
+        out = [(k, w) for k, w in out if k not in ('eval-differs-from-export', 'export-changes-the-mps-model', 'mps-eval-not-repeatable')]
+        out.append((REUSE_KEY, 'network with a layer invoked twice, summary()/export() %s%s: the FIRST eval forward differs from the exported model (max abs diff %g), every later pass is bit-identical'
+                    % (c.get('seq', 'eval'), ', model = copy taken at ' + c['copy']['at'] if c.get('copy') else '', o['maxdiff'])))
     for i, ent in o['layers'].items():
         s, ep = ent['summary'], ent['exported']
         for slot, key in (('in', 'in_precision'), ('out', 'out_precision'), ('w', 'w_precision')):
@@ -254,7 +305,7 @@ def oracle(c, o):
             chain = []
             j = nodes[int(i)]['src']
             while True:
-                k = G.kind(nodes[j])
+                k = G.kind(G.resolve(nodes, nodes[j]))
                 chain.append(k)
                 if k in ('in', 'conv', 'lin'):
                     break
@@ -321,7 +372,7 @@ def run(ctx):
     built = ctx.build()
     ctx.rule = ('grammar networks of vlib/mps_gen.py (1..4 blocks of conv / conv-BN / depthwise / residual add of (x, conv x), of two convs, of a depthwise chain with its source / pooling, head pool-flatten-linear(-BN)-linear; '
                 'depthwise / residual blocks forced first in half of the cases, all conv biases on in 60%) x precision tuples from {2,4,8} (1..3, any order) for activations and weights x random alpha with arg-max margin >= 0.05 '
-                'x temperature in [0.05,20] (both ends forced) x gumbel/hard/disable_shared_quantizers/pre-training-forward flags x conv padding_mode {zeros, circular, reflect, replicate} with padding > 0, paddings int / same / valid x moment of summary()+export() {after an eval forward, right after training-mode Gumbel forwards, after a coefficient update without forward} x schedule of 2-3 further forward passes (same / new batch, mode toggles) through the same exported model; where a layer input quantizer is not its producer output quantizer object the two are made to select different precisions. '
+                'x temperature in [0.05,20] (both ends forced) x gumbel/hard/disable_shared_quantizers/pre-training-forward flags x conv padding_mode {zeros, circular, reflect, replicate} with padding > 0, paddings int / same / valid x model under test {the MPS model, a copy.deepcopy / pickle round trip of it taken after construction / in training mode / after a coefficient change, coefficients of the copy changed afterwards; original must stay untouched} x moment of summary()+export() {after an eval forward, right after training-mode Gumbel forwards, after a coefficient update without forward} x schedule of 2-3 further forward passes (same / new batch, mode toggles) through the same exported model; where a layer input quantizer is not its producer output quantizer object the two are made to select different precisions. '
                 'one case = one network with one coefficient assignment; distinct by (architecture, precisions, selected indices); non-trivial = at least two candidate precisions somewhere and at least 2 searchable layers')
     n = 260 if ctx.quick else 2600
     cases = []
@@ -352,6 +403,10 @@ def run(ctx):
         ctx.dist['nprec_a:%d' % len(c['ap'])] += 1
         ctx.dist['conv%dd' % c['nodes'][0].get('dim', 2)] += 1
         ctx.dist['seq:' + c.get('seq', 'eval')] += 1
+        if G.has_reuse(c['nodes']):
+            ctx.dist['layer-invoked-twice'] += 1
+        if c.get('copy'):
+            ctx.dist['copy:%s:%s%s' % (c['copy']['at'], c['copy']['how'], ':not-picklable' if o.get('pickle') else '')] += 1
         for nd in c['nodes']:
             if nd['k'] in ('conv', 'dw') and G.pad_of(nd) > 0:
                 ctx.dist['padding_mode:' + nd.get('pm', 'zeros')] += 1
@@ -382,7 +437,8 @@ def run(ctx):
     model_ok = built
     if built:
         try:
-            good = [(c, o) for c, o in zip(cases, obs) if not o['exc']]
+            # (the wiring model has no notion of one module at two call sites: such networks are checked by the oracle only)
+            good = [(c, o) for c, o in zip(cases, obs) if not o['exc'] and not G.has_reuse(c['nodes'])]
             # the tree follows the repaired wiring iff no producer mismatch was observed at object level
             old_sites = any(not pr['same_object'] for c, o in good for pr in o['producer'].values())
             fixed = not old_sites
@@ -444,6 +500,7 @@ def replay(r):
         return 1
     o = run_case(c)
     print('network:', [nd['k'] for nd in c['nodes']])
+    print('model under test:', ('%s of the MPS model taken at: %s' % (c['copy']['how'], c['copy']['at'])) if c.get('copy') else 'the MPS model itself')
     print('summary()/export() called:', c.get('seq', 'eval'), '| padding modes:', sorted({nd.get('pm', 'zeros') for nd in c['nodes'] if nd['k'] in ('conv', 'dw')}))
     print('activation precisions', c['ap'], 'weight precisions', c['wp'], 'T', c['T'], 'gumbel', c['gumbel'], 'hard', c['hard'], 'disable_shared_quantizers', c['dsq'])
     print('property requires: MPS.eval()(x) == MPS.export().eval()(x) bit for bit; exported precisions == summary(); input precision of a layer == output precision of the producer of its input')
